@@ -83,16 +83,30 @@ func init() {
 			// stale until Update
 			m := r.n(32)
 			it := g.item(fmt.Sprintf("obj:%d:s=%s:g=%s:e=%s:h=%d:w=%d", m, hx(r.text(alpha, 2)), hx(r.text(alpha, 2)), hx(r.text(alpha, 2)), r.n(4), r.n(6)))
+			early := g.item("cell:" + it)     // a Cell value wrapping the item as it is NOW
+			earlyP := g.item("cellptr:" + it) // and a *Cell
 			row := g.do("newrow")
 			g.do("rowadd " + row + " " + it)
+			cp := g.do("copycell " + row + " 0")
+			cpBefore := g.do("copyobs " + cp)
 			before := g.do("cellobs " + row + " 0")
 			g.do(fmt.Sprintf("mutate %s s=%s g=%s e=%s h=%d w=%d", it, hx(r.text(alpha, 3)), hx(r.text(alpha, 3)), hx(r.text(alpha, 3)), r.n(4), r.n(6)))
 			stale := g.do("cellobs " + row + " 0")
 			if stale != before {
 				viol = append(viol, "cell changed when its item was mutated without Update")
 			}
+			// a cell wrapping the earlier Cell value keeps showing the wrapped cell's stored text
+			checkProbe(g, early, &viol)
+			checkProbe(g, earlyP, &viol)
 			g.do("update " + row + " 0")
+			if g.do("copyobs "+cp) != cpBefore {
+				viol = append(viol, "a by-value copy of a cell changed when the original was updated")
+			}
 			after := g.do("cellobs " + row + " 0")
+			g.do("copyupdate " + cp)
+			if g.do("cellobs "+row+" 0") != after {
+				viol = append(viol, "a cell changed when a by-value copy of it was updated")
+			}
 			_, f := parseRes(after)
 			if want := docText(g.x.items[idOf(it)]); unhx(f["text"]) != want {
 				viol = append(viol, fmt.Sprintf("after Update the cell text is %q, documented form of the mutated item is %q", unhx(f["text"]), want))
@@ -561,10 +575,17 @@ func init() {
 				alias["h:"+h[1:]] = fmt.Sprintf("c:%d:%s", ti, strings.Fields(last)[2])
 			}
 			keys := []string{"u0", "u1", "u2", "u3", "u4", "u5", "u6", "u7", "u8", "u9", "u10", "u11"}
+			deep := ""
+			if c%3 == 0 {
+				deep = owners[6+r.n(3)] // a cell that will carry 9-12 keys
+			}
 			nops := 8 + r.n(20)
 			for i := 0; i < nops; i++ {
 				o := owners[r.n(len(owners))]
 				k := keys[r.n(len(keys))]
+				if deep != "" && i < 12 {
+					o, k = deep, keys[i]
+				}
 				switch q := r.n(10); {
 				case q < 5:
 					v := fmt.Sprintf("u%d", r.n(50))
@@ -581,9 +602,12 @@ func init() {
 					} else {
 						ref[co][k] = v
 					}
-				case q == 5:
+				case q == 5 || (deep != "" && i == 12):
 					// copy a cell by value: a new owner starting with the original's properties
 					src := owners[6+r.n(3)]
+					if deep != "" && i == 12 {
+						src = deep
+					}
 					p := strings.Split(src, ":")
 					y := g.do(fmt.Sprintf("copycell R%s %s", p[1], p[2]))
 					if y != "nocell" {
@@ -731,6 +755,11 @@ func init() {
 			}
 			if r.chance(1, 2) {
 				register(fmt.Sprintf("x:%s:0", pre[1:]))
+			}
+			if r.chance(1, 4) {
+				// callbacks on the currently last column, then growth past the initial capacity of 10
+				register(fmt.Sprintf("c:%d:%d", ti, g.x.tables[ti].NColumns()))
+				rows = append(rows, g.do("addrowitems "+t+" "+mk(10+r.n(4))))
 			}
 			if r.chance(1, 3) {
 				late := g.do("addrowitems " + t + " " + mk(r.n(ncols+1)))
@@ -903,9 +932,10 @@ func init() {
 			first := map[string]string{}
 			ws := map[string]string{}
 			n := 3 + r.n(7)
-			names := g.registeredNames()
+			all := g.registeredNames()
+			names := []string{all[r.n(len(all))], all[r.n(len(all))]} // few names per case, so that paths meet
 			for i := 0; i < n; i++ {
-				kind := []string{"csv", "json", "markdown", "html", "text"}[r.n(5)]
+				kind := []string{"csv", "json", "markdown", "html", "text", "text"}[r.n(6)]
 				key := kind
 				var res string
 				switch r.n(3) {
@@ -1019,6 +1049,28 @@ func init() {
 				}
 				if f["lb"] != strconv.Itoa(mb) || f["lr"] != strconv.Itoa(mr) || f["lc"] != strconv.Itoa(mc) {
 					viol = append(viol, fmt.Sprintf("LongestLine{Bytes,Runes,Cells}(%q) = %s,%s,%s; per-line maxima are %d,%d,%d", s, f["lb"], f["lr"], f["lc"], mb, mr, mc))
+				}
+				if i == 1 {
+					// a mutable item: cell, copy, mutate to a text with no more lines, update one, inspect the other
+					ls0 := strings.Split(strings.TrimSuffix(s, "\n"), "\n")
+					it := g.item(fmt.Sprintf("obj:1:s=%s", hx(s)))
+					row := g.do("newrow")
+					g.do("rowadd " + row + " " + it)
+					cp := g.do("copycell " + row + " 0")
+					cpBefore := g.do("copyobs " + cp)
+					t2 := r.text(alphaLen, 2) + "a considerably longer first line"
+					if len(ls0) > 1 {
+						t2 += "\nz"
+					}
+					g.do(fmt.Sprintf("mutate %s s=%s", it, hx(t2)))
+					g.do("update " + row + " 0")
+					if g.do("copyobs "+cp) != cpBefore {
+						viol = append(viol, fmt.Sprintf("the copy of a cell of %q reports different lines/metrics after the original was updated to %q", s, t2))
+					}
+					_, of := parseRes(g.do("cellobs " + row + " 0"))
+					if unhx(of["text"]) != t2 {
+						viol = append(viol, "updated cell does not show the new text")
+					}
 				}
 				id := g.strItem(s)
 				_, pf := parseRes(g.do("probe " + id))
